@@ -9,13 +9,16 @@ pub mod c03;
 pub mod c04;
 pub mod c05;
 pub mod c07;
+pub mod c08;
 pub mod c09;
 pub mod uciproc;
+pub mod c10;
 pub mod c11;
 pub mod c12;
 pub mod c13;
 pub mod c14;
 pub mod c15;
+pub mod c16;
 pub mod srch;
 pub mod mate;
 pub mod refsearch;
@@ -49,12 +52,15 @@ pub fn lookup(id: &str) -> Option<Property> {
         "C05" => prop!("C05", c05),
         "C06" => prop!("C06", c06),
         "C07" => prop!("C07", c07),
+        "C08" => prop!("C08", c08),
         "C09" => prop!("C09", c09),
+        "C10" => prop!("C10", c10),
         "C11" => prop!("C11", c11),
         "C12" => prop!("C12", c12),
         "C13" => prop!("C13", c13),
         "C14" => prop!("C14", c14),
         "C15" => prop!("C15", c15),
+        "C16" => prop!("C16", c16),
         "C17" => prop!("C17", c17),
         _ => return None,
     })
